@@ -76,6 +76,8 @@ def prepare_package(root):
 
 
 RENAME = {"x": "log", "y": "er"}
+RENAME2 = {"x": "error_report_interval", "y": "er"}     # a name MagicRobot itself has (overridden by the user's robot)
+CUR = [RENAME]
 
 
 def rn(name):
@@ -84,11 +86,11 @@ def rn(name):
     for pre in ("c1_", "c2_", "am_"):
         if name.startswith(pre):
             return pre + rn(name[len(pre):])
-    return RENAME.get(name, name)
+    return CUR[0].get(name, name)
 
 
 def unrn(name):
-    inv = {v: k for k, v in RENAME.items()}
+    inv = {v: k for k, v in CUR[0].items()}
     for pre in ("c1_", "c2_", "am_"):
         if name.startswith(pre):
             return pre + unrn(name[len(pre):])
@@ -111,7 +113,9 @@ def renamed(c):
 def run_case(c, AM, uid):
     X = "x"
     back = (lambda n: n)
-    if uid % 5 == 2:
+    if uid % 5 == 2 or (uid % 5 == 4 and c["robot"].get("x", "missing") != "missing"):
+        # (the second spelling only where the robot defines x: MagicRobot has a value of its own under that name)
+        CUR[0] = RENAME if uid % 5 == 2 else RENAME2
         back = unrn
         c = renamed(c)
         X = rn("x")
@@ -131,7 +135,8 @@ def run_case(c, AM, uid):
         for a in spec["attrs"]:
             if a["preset"] == "class":
                 ns[a["n"]] = PRESET
-        params = ", ".join(p["n"] for p in ctor)
+        # (in every other case the constructor parameters have default values: they are requested all the same)
+        params = ", ".join(p["n"] + ("=None" if uid % 2 == 1 else "") for p in ctor)
         body = ["    pass"]
         if c.get("same"):
             # one class for both components: the constructor presets x only when told to (own)
